@@ -466,6 +466,10 @@ func (m *Machine) builtin(c *Config, call ssa.CallInstruction, name string, args
 		return c, nil
 	case "print", "println":
 		return c, nil
+	case "recover":
+		// on a path that did not panic recover() returns nil
+		m.bindCallResult(c, call, []Value{Sym("iface.nil", SIface)})
+		return c, nil
 	case "delete":
 		m.unsup("delete builtin")
 	}
